@@ -48,6 +48,9 @@ class Ctx:
             seen.add((o.cfg, o.key))
             counts[o.rule] = counts.get(o.rule, 0) + 1
         for rule, n in floors.items():
+            # a behaviour-preserving merge of duplicated code may lower a count a little; a rule that lost
+            # a third of its instances has lost its anchors
+            n = max(1, (n * 7) // 10)
             if counts.get(rule, 0) < n:
                 self.rep.add([anchor_ob(rule, "instances %d < floor %d" % (counts.get(rule, 0), n),
                                         "rule matched fewer sites than were confirmed by hand")])
